@@ -35,6 +35,13 @@ Theorem C20_body_nothing_dropped : forall fuel toks vals out, body_macro fuel to
 Proof. exact body_nothing_dropped. Qed.
 Print Assumptions C20_body_nothing_dropped.
 
+(* no fusing: whenever an identifier, a literal or an interpolated value is followed by a word (identifier, literal,
+   interpolation), body_recurse writes a blank after it; and `/` `*` is never written as a comment opener *)
+Theorem C20_words_are_separated : forall rest, starts_with_word rest = true ->
+  space_after_ident rest = true /\ space_after_lit rest = true /\ space_after_interp rest = true.
+Proof. exact words_are_separated. Qed.
+Print Assumptions C20_words_are_separated.
+
 Theorem C20_nonvacuous :
   let toks := [TIdent (lit "if"); TIdent (lit "a");
                TGroup DBrace [TIdent (lit "b"); TPunct ";"%char; TIdent (lit "print"); TGroup DParen [TLit (lit """x{}y"""); TPunct ","%char; TPunct "#"%char; TIdent (lit "v")]]] in
